@@ -364,7 +364,7 @@ func genDStar(g *vlib.G) {
 			for _, o := range prefix {
 				key += " " + o.String() + ";"
 			}
-			g.Case(key, func(t *vlib.T) {
+			gcase(g, key, func(t *vlib.T) {
 				t.Nontrivial()
 				nviol := 0
 				var rec func(ops []dsOp)
